@@ -662,7 +662,28 @@ Definition model_obs (k : blockcase) : term :=
         end in
     TL [TS "codes"; TL (go ev0 (k_groups k));
         (if snap_eqb (snap_of (ids_of k) ev0) (k_start k) then TS "start_ok" else TL [TS "start"; snap_diff (snap_of (ids_of k) ev0) (k_start k)]);
-        first_bad 0 ev0 (k_groups k)]
+        first_bad 0 ev0 (k_groups k);
+        (* the committed block (validate mode): result code or the entries of the final table that differ *)
+        match eval_block (env_of k true false) b (k_prevlvl k) (k_ru k) (accepted (k_groups k))
+                         (k_expired k) (k_absent k) (k_proposer k) (k_payout k) with
+        | Err e => TL [TS "final_err"; tn e]
+        | Ok ev =>
+          TL [TS "final";
+              TL (map (fun e => let x := snd e in
+                        TL [tn (fst e); tn (match a_status x with Offline => 0 | Online => 1 | NotPart => 2 end);
+                            tn (a_algos x); tn (a_rbase x); tn (a_rewarded x); tn (a_auth x); tb (a_elig x);
+                            tn (a_schema_u x); tn (a_schema_b x); tn (a_extrapages x); tn (a_appparams x); tn (a_applocals x);
+                            tn (a_assetparams x); tn (a_assets x); tn (a_boxes x); tn (a_boxbytes x); tn (a_lastprop x); tn (a_lasthb x);
+                            tn (a_votepk x); tn (a_selpk x); tn (a_sppk x); tn (a_votefirst x); tn (a_votelast x); tn (a_votekd x)])
+                  (filter (fun e => negb (existsb (fun e' => (fst e =? fst e') && acct_eqb (snd e) (snd e')) (k_final k)))
+                          (table_of (universe k) (k_appids k) (ev_cow ev))));
+              TL (map (fun e => tn (fst e)) (table_of (universe k) (k_appids k) (ev_cow ev)));
+              TL (map (fun e => tn (fst e)) (k_final k));
+              tb (table_eqb (table_of (universe k) (k_appids k) (ev_cow ev)) (k_final k));
+              tb (aview_eqb (aview_of (universe k ++ map app_addr (k_appids k)) (k_aids k) (ev_cow ev)) (k_faview k));
+              tb (plist_eqb (creators_of (k_aids k) (ev_cow ev)) (k_fcreators k));
+              tb (rows_eqb (filter (fun r => negb (match r with 4 :: _ => true | _ => false end)) (appobs_of (universe k) (k_appids k) (ev_cow ev))) (k_frows k))]
+        end]
   end.
 
 (* the reward units handed to StartEvaluator are those of the enumerated ledger *)
